@@ -4,6 +4,7 @@ pub mod co;
 pub mod join;
 pub mod once;
 pub mod rt;
+pub mod mpool;
 #[cfg(feature = "pre")]
 pub mod pre;
 #[cfg(feature = "uring")]
@@ -42,8 +43,9 @@ pub static ALL: &[Comp] = &[
     Comp { name: "join", gen: join::gen, exec: join::exec, isolate_ms: 15000 },
     Comp { name: "once", gen: once::gen, exec: once::exec, isolate_ms: 15000 },
     Comp { name: "rt", gen: rt::gen, exec: rt::exec, isolate_ms: 15000 },
+    Comp { name: "mpool", gen: mpool::gen, exec: mpool::exec, isolate_ms: 2500 },
     #[cfg(feature = "uring")]
-    Comp { name: "uring", gen: uring::gen, exec: uring::exec, isolate_ms: 20000 },
+    Comp { name: "uring", gen: uring::gen, exec: uring::exec, isolate_ms: 45000 },
     #[cfg(feature = "pre")]
     Comp { name: "pre", gen: pre::gen, exec: pre::exec, isolate_ms: 20000 },
     Comp { name: "sleepers", gen: sleepers::gen, exec: sleepers::exec, isolate_ms: 15000 },
